@@ -6,7 +6,7 @@
    hard-cap arithmetic, UBI payout amount, UBI due test, MintIssueTx bond-denom refusal).  A statement
    that depends on a guard is a Prop over the configuration; it is proved for the repaired shape,
    refuted for the shape first found, and stated for [tree_config] itself. *)
-From Sekai Require Import Base.Prelude Base.Dec Model.Monetary Model.C13Check Gen.MintBurn Proofs.Monetary.
+From Sekai Require Import Base.Prelude Base.Dec Model.Monetary Model.C13Check Gen.MintBurn Proofs.Monetary Proofs.MonetarySound.
 
 (* ================================================================== block inflation *)
 (* Inflation never lifts supply above the period snapshot grown pro rata at the configured rate:
@@ -219,9 +219,35 @@ Proof. exact mint_sites_sanctioned_lemma. Qed.
 Print Assumptions C13_mint_sites_sanctioned.
 
 (* ================================================================== the spec checker and the model *)
-(* The decidable checker that is run on the REAL observations (Model/C13Check.v check_step) accepts
-   every run of the model from a well-formed state, for the repaired guard shapes: no clause fires
-   on any history.  This is what connects "the real trace passes the checker" to the theorems. *)
+(* chk_sound, ALL clauses: the decidable checker that is run on the REAL observations
+   (Model/C13Check.v check_step: infl_target, annual_gate, ubi_payout, snapshot, reg_tracks, origin,
+   ubi_cap, ubi_record, reject, gate, owner_only, owner_cap, cap, cap_hist) accepts every step of the
+   model with the five guards in the repaired shape, from every well-formed state ([inv]: what x/gov
+   validation, the bank and the block clock guarantee) and checker state agreeing with it ([rel]);
+   and the next checker state agrees with the next model state.  So on a repaired tree no clause can
+   fire on a trace that the correspondence run shows equal to the model's; on today's tree the three
+   clauses that do fire are exactly the three refuted statements. *)
+Theorem C13_chk_sound_step : forall cf, all_repaired cf -> forall k s o,
+  rel k s -> inv s -> good_op o -> step_sound cf k s o.
+Proof. exact step_sound_all. Qed.
+Print Assumptions C13_chk_sound_step.
+
+(* over histories: no clause fires anywhere on the model's own trace, as long as the well-formedness
+   invariant holds at the states the run visits ([inv_along]; its cap_ok, native-token-registered and
+   pools-non-negative parts are themselves preserved: C13_supply_le_cap, C13_registry_supply_tracks_mints,
+   C13_ubi_payout_bound) *)
+Theorem C13_chk_sound : forall cf, all_repaired cf -> forall ops s k i,
+  rel k s -> inv_along cf s ops -> check_steps i k (model_trace cf s ops) = [].
+Proof. exact chk_sound_lemma. Qed.
+Print Assumptions C13_chk_sound.
+
+(* the checker starts in agreement with the model's initial state of a case *)
+Theorem C13_chk_init_agrees : forall t0 reg0 ubis0 pools0 i, NoDup (map fst reg0) ->
+  rel (init_cst t0 reg0 ubis0 i) (init_state t0 reg0 ubis0 pools0 i).
+Proof. exact init_rel. Qed.
+Print Assumptions C13_chk_init_agrees.
+
+(* for ANY guard shapes (today's tree included): the inflation clauses and the origin clause *)
 Theorem C13_chk_sound_block : forall cf s dt s1 s2 s3, valid_monetary s dt ->
   block_parts cf s dt = Ok (s1, s2, s3) ->
   chk_infl_target (nat_supply s) (s_psnap s) (s_params s) (s_now s + dt) (nat_supply s1) = true /\
@@ -251,3 +277,7 @@ Example C13_nonvacuous_registry : forall cf, exists s ops d t,
   Forall nonneg_cap_op ops /\ cap_ok (s_reg s) /\ aget d (s_reg s) = Some t /\ 0 < t_cap t
   /\ reg_supply s d < reg_supply (run cf s ops) d /\ 500 < reg_supply (run cf s ops) d.
 Proof. exact nonvacuous_registry. Qed.
+Example C13_nonvacuous_chk_sound : forall cf, exists s ops, inv_along cf s ops /\ ops <> [] /\
+  rel (init_cst (s_now s) (s_reg s) (s_ubis s) (mkInit (nat_supply s) [] (s_params s) (s_psnap s) (s_ysnap s)))
+      (init_state (s_now s) (s_reg s) (s_ubis s) (s_pools s) (mkInit (nat_supply s) [] (s_params s) (s_psnap s) (s_ysnap s))).
+Proof. exact chk_sound_nonvacuous. Qed.
